@@ -259,12 +259,46 @@ func (eng *Engine) compileClosed(ax *Axiom, goal bool) (*Term, error) {
 	ex := newExec(eng, nil, nil)
 	ex.inSpec = 1
 	ex.reveal = map[string]bool{}
-	for _, r := range ax.Reveal {
-		ex.reveal[r] = true
+	if goal {
+		// definitions are unfolded only while proving the lemma; as a hypothesis it is used in its folded form
+		for _, r := range ax.Reveal {
+			ex.reveal[r] = true
+		}
 	}
 	st := &State{pc: True, locals: map[*ssa.Alloc][]*Term{}, heap: newHeap(Const("wm.ax", IntSort)), wm: Const("wm.ax", IntSort)}
 	env := &Env{ex: ex, vars: map[string]Value{}, st: st, old: st, pkg: eng.pkgByName[ax.Pkg]}
-	return env.boolExpr(ax.E, goal)
+	t, err := env.boolExpr(ax.E, goal)
+	if err != nil || goal {
+		return t, err
+	}
+	// used as a hypothesis the statement holds for every heap: generalise over the symbolic heap arrays it mentions
+	memo := st.heap.base.memo
+	if len(memo) == 0 {
+		return t, nil
+	}
+	var keys []string
+	for k := range memo {
+		keys = append(keys, k)
+	}
+	sort.Strings(keys)
+	sub := map[*Term]*Term{}
+	var bound []*Term
+	for _, k := range keys {
+		c := memo[k]
+		b := BoundVar("heap."+k, c.Sort)
+		sub[c] = b
+		bound = append(bound, b)
+	}
+	body := Subst(t, sub)
+	if body == t {
+		return t, nil
+	}
+	if body.Op == "forall" {
+		all := append(append([]*Term{}, bound...), body.Bound...)
+		inner := body.Args[0]
+		return Forall(all, inner, choosePatterns(all, inner)), nil
+	}
+	return Forall(bound, body, choosePatterns(bound, body)), nil
 }
 
 type axiomTerm struct {
